@@ -160,6 +160,19 @@ def step_obligations(prop="C13"):
         o["tier"] = tier
         o["strength"] = "B(stack depth pinned: 5 slots of capacity 8%s)" % ("; " + cfg["bound"] if cfg.get("bound") else "")
         obs.append(o)
+    # SUB / MUL with the depth pinned AND the operand slots restricted to scalars and strings (the element-wise array arms exhaust
+    # 10 GB; ADD with its string-concatenation arm and DIV do not close even so): 19 s / 26 s
+    for op in ("SUB", "MUL"):
+        o = vmstep.step(prop, "%s.step.%s.s5.scalar" % (prop, op), "h_step", op, must_have=[r"C13\.step", r"COVER"], timeout=900)
+        cfg = STEP_CFG.get(op, {})
+        for k in ("VERIF_M0", "VERIF_M1", "VERIF_M2"):
+            o["defines"][k] = 1 | 2
+        o["defines"].update(cfg.get("defs", {}))
+        o["defines"]["VERIF_STACK_SIZE"] = 5
+        if cfg.get("checks"):
+            o["flags"] = cfg["checks"]
+        o["strength"] = "B(stack depth pinned: 5 slots of capacity 8; operand slots hold scalars or strings, no arrays)"
+        obs.append(o)
     return obs
 
 
